@@ -22,8 +22,9 @@ class Rule:
 
 
 class Def:
-    def __init__(self, name, rulesets, lets=(), tags=(), note='', nmax=None):
+    def __init__(self, name, rulesets, lets=(), tags=(), note='', nmax=None, local_lets=None):
         self.name = name
+        self.local_lets = dict(local_lets or {})     # rule set name -> [(var, regex)] (`let`s inside that rule set)
         self.nmax = nmax            # cap on N for definitions whose path count explodes (binary-search tables)
         self.rulesets = rulesets            # list of (name, [Rule]) ; first is Init
         self.lets = list(lets)              # top-level (name, regex)
@@ -53,6 +54,8 @@ class Def:
             out.append('    let %s = %s;' % (n, R.show(r)))
         for rsname, rules in self.rulesets:
             out.append('    rule %s {' % rsname)
+            for n, r in self.local_lets.get(rsname, ()):
+                out.append('        let %s = %s;' % (n, R.show(r)))
             for r in rules:
                 lhs = R.show(r.regex)
                 if r.ctx is not None:
